@@ -13,6 +13,15 @@
 #include "upump_mock.h"
 
 #define MAXB 4
+#ifndef IDX
+#define IDX 0
+#endif
+#ifndef SR
+#define SR 0
+#endif
+#ifndef BF
+#define BF 1
+#endif
 static struct upump_mgr *mgr;
 static struct upump *pump;
 static struct upump_blocker *blk[MAXB];
@@ -23,7 +32,9 @@ static bool pump_freed;
 static unsigned cb_calls;
 static int cb_behaviour;                 /* what the pump callback does (symbolic) */
 
-/* the owner of the pump: a refcounted object whose destructor frees the pump */
+/* the owner of the pump: a refcounted object whose destructor frees the pump (MODE_DISPATCH only:
+ * keeping it out of the other modes keeps the function-pointer targets of urefcount_release unambiguous) */
+#ifdef MODE_DISPATCH
 struct owner { struct urefcount refcount; struct upump *pump; bool dead; int touched; };
 static struct owner *owner;
 static void owner_free(struct urefcount *rc)
@@ -38,6 +49,7 @@ static void owner_free(struct urefcount *rc)
     free(o);
     owner = NULL;
 }
+#endif
 
 static void blocker_cb(struct upump_blocker *b)
 {
@@ -59,6 +71,7 @@ static void pump_cb(struct upump *p)
             upump_stop(p);
             r_started = false;
             break;
+#ifdef MODE_DISPATCH
         case 2:             /* the callback drops the last application reference on the owner;
                                dispatch must keep the owner (and the pump) alive until we return */
             if (owner != NULL) {
@@ -69,6 +82,7 @@ static void pump_cb(struct upump *p)
                 VASSERT(!pump_freed, "pump freed during its own callback");
             }
             break;
+#endif
         default:
             break;
     }
@@ -89,37 +103,43 @@ static void check(void)
     VASSERT(mm->loop_unref == ((m->active && !r_status) ? 1 : 0), "loop keep-alive balance");
 }
 
-static void one_op(int op, unsigned arg)
+/* idx (which blocker slot) is always a compile-time constant chosen by the driver: a symbolic
+ * index into heap objects makes every later list access ambiguous for symex (measured: no
+ * verdict in 120 s, against 0.4 s); blockers are interchangeable, and the driver enumerates idx. */
+static void one_op(int op, unsigned idx, bool flag)
 {
     switch (op) {
         case 0: upump_start(pump); r_started = true; break;
         case 1: upump_stop(pump); r_started = false; break;
         case 2: upump_restart(pump); r_started = true; break;
-        case 3: upump_set_status(pump, (arg & 1) != 0); r_status = (arg & 1) != 0; break;
+        case 3: upump_set_status(pump, flag); r_status = flag; break;
         case 4: {           /* blocker alloc */
-            unsigned i = arg % MAXB;
-            VASSUME(blk[i] == NULL);
-            blk[i] = upump_blocker_alloc(pump, blocker_cb, (void *)(intptr_t)i);
-            VASSUME(blk[i] != NULL);
+            VASSUME(blk[idx] == NULL);
+            blk[idx] = upump_blocker_alloc(pump, blocker_cb, (void *)(intptr_t)idx);
+            VASSUME(blk[idx] != NULL);
             nblk++;
             break;
         }
         case 5: {           /* blocker free */
-            unsigned i = arg % MAXB;
-            VASSUME(blk[i] != NULL);
-            upump_blocker_free(blk[i]);
-            blk[i] = NULL;
+            VASSUME(blk[idx] != NULL);
+            upump_blocker_free(blk[idx]);
+            blk[idx] = NULL;
             nblk--;
             break;
         }
         case 6: {           /* the loop fires the watcher -- only possible while it is active */
             VASSUME(mock_can_fire(pump));
             unsigned before = cb_calls;
-            cb_behaviour = (int)(arg % 3);
+#ifdef MODE_DISPATCH
+            cb_behaviour = 2;
+#else
+            cb_behaviour = flag ? 1 : 0;
+#endif
             mock_fire(pump);
             VASSERT(cb_calls == before + 1, "dispatch runs the callback once");
-            if (cb_behaviour == 2)
-                VASSERT(owner == NULL && pump_freed, "owner destroyed (and pump freed) once dispatch let go of it");
+#ifdef MODE_DISPATCH
+            VASSERT(owner == NULL && pump_freed, "owner destroyed (and pump freed) once dispatch let go of it");
+#endif
             break;
         }
         default: {          /* free, with blockers possibly outstanding */
@@ -128,7 +148,6 @@ static void one_op(int op, unsigned arg)
                 held[i] = blk[i] != NULL;
                 blk_cb_calls[i] = 0;
             }
-            owner->pump = NULL;
             upump_free(pump);
             pump_freed = true;
             for (int i = 0; i < MAXB; i++) {
@@ -144,6 +163,7 @@ static void one_op(int op, unsigned arg)
 int main(void)
 {
     mgr = mock_mgr_alloc();
+#ifdef MODE_DISPATCH
     owner = malloc(sizeof(*owner));
     VASSUME(owner != NULL);
     urefcount_init(&owner->refcount, owner_free);
@@ -153,44 +173,49 @@ int main(void)
     VASSUME(pump != NULL);
     owner->pump = pump;
     check();
-
-#ifdef MODE_STEP
-    /* canonical construction of an arbitrary abstract state */
-    unsigned nb = NBLK;                 /* 0..3, case-split by the driver */
-    bool want_started = nd_bool(), want_status = nd_bool();
-    bool block_first = nd_bool();       /* blockers taken before or after start: same abstract state */
-    if (block_first)
-        for (unsigned i = 0; i < nb; i++)
-            one_op(4, i);
-    if (!want_status)
-        one_op(3, 0);
-    if (want_started)
-        one_op(nd_bool() ? 0 : 2, 0);
-    if (!block_first)
-        for (unsigned i = 0; i < nb; i++)
-            one_op(4, i);
+    /* dispatch holds the owner's reference across the callback: the loop fires a started pump
+     * and the callback drops the owner's last reference */
+    one_op(3, 0, nd_bool());
+    one_op(SR, 0, false);
     check();
-    int op = (int)nd_range(0, 7);
-    unsigned arg = nd_u8();
-    one_op(op, arg);
-    check();
-#ifdef WITNESS
-    VASSUME(op == WITNESS_OP);
-#endif
+    one_op(6, 0, false);
 #else
-    int last = -1;
-    for (int k = 0; k < KOPS; k++) {
+    pump = upump_alloc_idler(mgr, pump_cb, NULL, NULL);
+    VASSUME(pump != NULL);
+    check();
+#endif
+
+#if defined(MODE_STEP)
+    /* canonical construction of an arbitrary abstract state (started, status, NBLK blockers);
+     * BF: blockers taken before (1) or after (0) the start; SR: started through start (0) or restart (2) */
+    bool want_started = nd_bool(), want_status = nd_bool();
+    if (BF)
+        for (unsigned i = 0; i < NBLK; i++)
+            one_op(4, i, false);
+    if (!want_status)
+        one_op(3, 0, false);
+    if (want_started)
+        one_op(SR, 0, false);
+    if (!BF)
+        for (unsigned i = 0; i < NBLK; i++)
+            one_op(4, i, false);
+    check();
+#ifdef COP
+    int op = COP;
+#else
+    int op = (int)nd_range(0, 7);
+#endif
+    one_op(op, IDX, nd_bool());
+    check();
+#elif defined(MODE_SEQ)
+    /* OPS: comma-separated list of (kind*4 + idx) codes chosen by the driver; flags symbolic */
+    static const int ops[] = { OPS };
+    for (unsigned k = 0; k < sizeof(ops) / sizeof(ops[0]); k++) {
         if (pump_freed)
             break;
-        int op = (int)nd_range(0, 7);
-        unsigned arg = nd_u8();
-        one_op(op, arg);
+        one_op(ops[k] / 4, ops[k] % 4, nd_bool());
         check();
-        last = op;
     }
-#ifdef WITNESS
-    VASSUME(last == 7 && nblk == 0 && cb_calls >= 1);
-#endif
 #endif
     VWITNESS();
     /* teardown: whatever is left is released; nothing may remain allocated */
@@ -200,12 +225,9 @@ int main(void)
                 upump_blocker_free(blk[i]);
                 blk[i] = NULL;
             }
-        owner->pump = NULL;
         upump_free(pump);
         pump_freed = true;
     }
-    if (owner != NULL)
-        urefcount_release(&owner->refcount);
     VASSERT(upump_mock_mgr_from_upump_mgr(mgr)->loop_unref == 0, "loop keep-alive balance restored after free");
     upump_mgr_release(mgr);
     return 0;
